@@ -17,7 +17,7 @@ Import ListNotations.
 Local Open Scope N_scope.
 
 (* ------------------------------------------------------------ receive side *)
-(* For ALL message lists [ms] (every message admitted by the size limits of the
+(* For ALL message lists [ms] (every message letin by the size limits of the
    configuration) and ALL ways [ps] of cutting the concatenation of their
    frames into pieces -- pieces of any size: what a readv does not take stays in
    the kernel and every readv returns min(asked, available) -- the receiver as
@@ -27,7 +27,7 @@ Local Open Scope N_scope.
    at a frame boundary (R ... sp_dinit: a read of the next length header is
    posted, nothing buffered). *)
 Theorem rx_segmentation_independent : forall cfg ms ps st0,
-  rx_init (r_kind cfg) = Some st0 -> Forall (msg_admitted cfg) ms -> concat ps = frames cfg ms ->
+  rx_init (r_kind cfg) = Some st0 -> Forall (msg_letin cfg) ms -> concat ps = frames cfg ms ->
   exists st', rx_feed_all cfg st0 ps = Some (st', frame_events ms) /\
               SpFrameModel.deliveries (frame_events ms) = map sp_wire ms /\ no_error (frame_events ms) /\
               R cfg st' sp_dinit.
@@ -41,7 +41,7 @@ Print Assumptions rx_segmentation_independent.
    never coming), itself cut into pieces in any way: the deliveries are a
    prefix of the messages -- complete messages only -- and no error is raised *)
 Theorem rx_prefix_delivers_prefix : forall cfg ms ps pre post st0,
-  rx_init (r_kind cfg) = Some st0 -> Forall (msg_admitted cfg) ms ->
+  rx_init (r_kind cfg) = Some st0 -> Forall (msg_letin cfg) ms ->
   pre ++ post = frames cfg ms -> concat ps = pre ->
   exists st' ev, rx_feed_all cfg st0 ps = Some (st', ev) /\
     (exists n, ev = firstn n (frame_events ms)) /\
@@ -52,7 +52,7 @@ Print Assumptions rx_prefix_delivers_prefix.
 (* the same through single completions: every piece is what ONE readv returned
    (non-empty, within what was asked for: [fits]) *)
 Theorem rx_single_completions : forall cfg ms ps st0,
-  rx_init (r_kind cfg) = Some st0 -> Forall (msg_admitted cfg) ms -> concat ps = frames cfg ms ->
+  rx_init (r_kind cfg) = Some st0 -> Forall (msg_letin cfg) ms -> concat ps = frames cfg ms ->
   fits cfg sp_dinit ps ->
   exists st', rx_steps cfg st0 ps = Some (st', frame_events ms) /\ R cfg st' sp_dinit.
 Proof. exact rx_steps_cuts. Qed.
@@ -110,7 +110,7 @@ Print Assumptions tx_terminates.
    cutting) delivers header ++ body; the receiving protocol's hop loop gives
    back exactly (header, body) for every backtrace within TTL and header size *)
 Theorem header_travels_in_front : forall cfg m ps st0 ttl p,
-  rx_init (r_kind cfg) = Some st0 -> msg_admitted cfg m -> concat ps = frame (r_kind cfg) m ->
+  rx_init (r_kind cfg) = Some st0 -> msg_letin cfg m -> concat ps = frame (r_kind cfg) m ->
   backtrace (sp_hdr m) -> (length (sp_hdr m) <= 4 * ttl)%nat ->
   (exists h, N.of_nat (length h) = head_len (r_kind cfg) /\ frame (r_kind cfg) m = h ++ sp_hdr m ++ sp_body m) /\
   (exists st', rx_feed_all cfg st0 ps = Some (st', [RAlloc (N.of_nat (length (sp_wire m))); RDeliver (sp_hdr m ++ sp_body m)])) /\
@@ -203,7 +203,7 @@ Theorem inproc_fifo_once_partial : forall chk ops, sends_inv ops ->
     Forall (handoff_ok chk (sent_msgs ops)) (handoffs outs) /\ Forall (drop_ok (sent_msgs ops)) (drops outs).
 Proof. exact fifo_once. Qed.
 Print Assumptions inproc_fifo_once_partial.
-(* _partial: for chk = false [handoff_ok] admits, for a message whose chunk
+(* _partial: for chk = false [handoff_ok] lets in, for a message whose chunk
    allocation was made to fail, delivery of the body without its header (the
    defect above).  The full statement "delivered whole, in order, once, or
    dropped whole (allocation failure only)" holds of the repaired text under
@@ -238,7 +238,7 @@ Theorem ws_message_roundtrip : forall cfg fragsize (m : sp_msg) keys,
   c_isstream cfg = false -> N.of_nat (length (sp_wire m)) < 2 ^ 64 ->
   let frs := ws_send_frames false false fragsize (sp_wire m) in
   (length frs <= length keys)%nat -> Forall (fun k => length k = 4%nat) keys ->
-  admitted_along cfg ws_init frs ->
+  letin_along cfg ws_init frs ->
   forall p rest, concat (p :: rest) = ws_encode_frames (negb (c_server cfg)) keys frs ->
   let '(d, e) := ws_feed_all cfg ws_dinit (p :: rest) in
   WsProofs.deliveries e = [sp_hdr m ++ sp_body m] /\ d = ws_dinit.
@@ -284,7 +284,7 @@ Print Assumptions c01_consts_match.
 Example rx_nonvacuous :
   let cfg := mkRxCfg KIpc 100 1000 in
   let ms := [mkSp [128; 0; 0; 1] [3; 4; 5]; mkSp [] []; mkSp [] [9]] in
-  Forall (msg_admitted cfg) ms /\
+  Forall (msg_letin cfg) ms /\
   (exists st0, rx_init KIpc = Some st0 /\
      option_map snd (rx_feed_all cfg st0 [firstn 7 (frames cfg ms); skipn 7 (frames cfg ms)]) =
        Some [RAlloc 7; RDeliver [128; 0; 0; 1; 3; 4; 5]; RAlloc 0; RDeliver []; RAlloc 1; RDeliver [9]]).
